@@ -2,6 +2,7 @@ package sym
 
 import (
 	"go/token"
+	"go/types"
 )
 
 // encoding/csv stub: a ghost file's CSV content is a list of records registered by the
@@ -56,8 +57,21 @@ func (p *Program) installCSV() {
 		if !ok {
 			unsupportedf("csv.NewReader on a reader that is not a ghost file")
 		}
-		var cell Value = Opaque{kind: "csvreader", v: &csvReader{path: path, fields: -1}}
-		return &cell
+		// a real csv.Reader value, so that the code under analysis can set its options; the
+		// stub's own state lives in a side table
+		rt := m.P.namedType("encoding/csv", "Reader")
+		cell := zero(rt)
+		if st, ok := cell.(Struct); ok {
+			if i := csvFieldIndex(rt, "Comma"); i >= 0 {
+				st[i] = K(32, ',')
+			}
+		}
+		p := &cell
+		if m.csvReaders == nil {
+			m.csvReaders = map[*Value]*csvReader{}
+		}
+		m.csvReaders[p] = &csvReader{path: path, fields: -1}
+		return p
 	}
 	in["(*encoding/csv.Reader).Read"] = func(fr *frame, a []Value) Value {
 		m := fr.m
@@ -65,7 +79,42 @@ func (p *Program) installCSV() {
 		if p == nil {
 			m.runtimePanic(fr, token.NoPos, "invalid memory address or nil pointer dereference")
 		}
-		r := (*p).(Opaque).v.(*csvReader)
+		r := m.csvReaders[p]
+		if r == nil {
+			unsupportedf("csv.Reader not created by csv.NewReader on a ghost file")
+		}
+		// options: the stub hands out field values, so it can honour those options that act on
+		// field values; the others would change how the text is split, which the stub cannot see
+		rt := m.P.namedType("encoding/csv", "Reader")
+		st := (*p).(Struct)
+		opt := func(name string) *Term {
+			if i := csvFieldIndex(rt, name); i >= 0 {
+				if t, ok := st[i].(*Term); ok {
+					return t
+				}
+			}
+			return nil
+		}
+		if c := opt("Comma"); c == nil || !c.IsConst() || c.val != ',' {
+			unsupportedf("csv.Reader with a Comma other than ','")
+		}
+		for _, name := range []string{"Comment", "FieldsPerRecord"} {
+			if c := opt(name); c != nil && (!c.IsConst() || c.val != 0) {
+				unsupportedf("csv.Reader option " + name)
+			}
+		}
+		for _, name := range []string{"LazyQuotes", "ReuseRecord", "TrailingComma"} {
+			if c := opt(name); c != nil && (!c.IsConst() || c.val != 0) {
+				unsupportedf("csv.Reader option " + name)
+			}
+		}
+		trim := false
+		if c := opt("TrimLeadingSpace"); c != nil {
+			if !c.IsConst() {
+				unsupportedf("symbolic csv.Reader option")
+			}
+			trim = c.val != 0
+		}
 		cf := m.csvFiles[r.path]
 		if cf == nil {
 			// an existing file without registered CSV content: empty
@@ -86,6 +135,11 @@ func (p *Program) installCSV() {
 		rec := cf.records[idx]
 		b := &Backing{v: make([]Value, len(rec)), esize: 16}
 		for i, f := range rec {
+			if trim {
+				// TrimLeadingSpace: leading white space of a field is dropped (the native side
+				// writes such fields unquoted; inside quotes the blanks would survive)
+				f = m.csvTrimLeading(f)
+			}
 			b.v[i] = f
 		}
 		out := Slice{a: b, len: len(rec), cap: len(rec)}
@@ -108,4 +162,37 @@ func itoa(n int) string {
 		n /= 10
 	}
 	return s
+}
+
+// csvTrimLeading drops leading blanks and tabs (and the other one-byte white space
+// characters) of a field whose bytes may be symbolic; a symbolic byte forks.
+func (m *Machine) csvTrimLeading(f Str) Str {
+	ts := f.Terms()
+	i := 0
+	for i < len(ts) {
+		t := ts[i]
+		isSp := BOr(BOr(Cmp(OpEq, t, K(8, ' ')), Cmp(OpEq, t, K(8, '\t'))), BOr(Cmp(OpEq, t, K(8, '\v')), Cmp(OpEq, t, K(8, '\f'))))
+		if t.IsConst() {
+			if !(t.val == ' ' || t.val == '\t' || t.val == '\v' || t.val == '\f') {
+				break
+			}
+		} else if !m.branch(isSp) {
+			break
+		}
+		i++
+	}
+	return StrFromTerms(ts[i:])
+}
+
+func csvFieldIndex(t types.Type, name string) int {
+	st, ok := t.Underlying().(*types.Struct)
+	if !ok {
+		return -1
+	}
+	for i := 0; i < st.NumFields(); i++ {
+		if st.Field(i).Name() == name {
+			return i
+		}
+	}
+	return -1
 }
